@@ -34,4 +34,10 @@ TEXTS = {
         "note": "trusted: Lean kernel + audited axioms; hand-written model of overlay.rs and path.rs tied by the record stream (bounded differential execution); access-time stamping by MemoryFS::open_file inside a lower layer is not a call of the overlay and is ignored (documented reading)",
         "technique": "Lean 4 proof (invariant-preservation calculus) over hand-written model + differential correspondence check",
     },
+    "C07": {
+        "level": "Lean 4 theorems: AltrootFS::path q = P ++ q for canonical P and q; for every join argument string the resulting path is canonical and mapped below P (also for chains of joins); every altroot method equals, as a state transformer, the VfsPath operation on P ++ q of the underlying filesystem (same outcome, same effect); every call that reaches the underlying filesystem carries a canonical path with P as component-wise prefix — stated for an arbitrary invariant, for the ghost call log of a recording wrapper, and for an altroot inside an altroot; PhysicalFS::get_path appends canonical paths below the host root. Tied to the code by the record stream (recording wrapper between the real AltrootFS and its underlying filesystem: every path argument, snapshots inside/outside P, hostile join arguments) and the tree stream on altroot configurations.",
+        "design_ref": "DESIGN.md §6 C07",
+        "note": "trusted: Lean kernel + audited axioms; hand-written model of altroot.rs/path.rs tied by the record and tree streams; PathBuf::join modelled; symlinks outside the property; raw trait calls with non-canonical strings are outside the statement (raw_call_escapes shows they do escape)",
+        "technique": "Lean 4 proof over hand-written model + differential correspondence check",
+    },
 }
